@@ -239,8 +239,8 @@ const char** iwpool_split_string(
         ++ep;
       }
       if (ignore_whitespace) {
-        while (iwchars_is_space(*sp)) ++sp;
-        while (iwchars_is_space(*(ep - 1))) --ep;
+        while (sp < ep && iwchars_is_space(*sp)) ++sp;
+        while (ep > sp && iwchars_is_space(*(ep - 1))) --ep;
       }
       if (ep >= sp) {
         char *s = iwpool_alloc(ep - sp + 1, pool);
